@@ -223,6 +223,7 @@ fn small_boundary(width: u8) -> Vec<u64> {
 #[derive(Default)]
 pub struct Local {
     pub counts: BTreeMap<&'static str, u64>,
+    pub maxes: BTreeMap<&'static str, u64>,
     pub outcomes: BTreeSet<u64>,
     pub viols: Vec<Violation>,
 }
@@ -354,6 +355,7 @@ where
     for (n, loc) in results {
         total += n;
         run.merge_counts(&loc.counts);
+        run.merge_maxes(&loc.maxes);
         run.merge_outcomes(&loc.outcomes);
         for v in loc.viols {
             run.violation(v);
